@@ -166,3 +166,78 @@ func mListRender(g *mGraph, name string) []string {
 	}
 	return list
 }
+
+// vObsWithLookup: listing, feed and relationship answers of a dataset plus the
+// scoped lookups of e1 and e2 (for live latest versions), for the
+// implementation and for the model.
+func vObsWithLookup(h *verifh.H, hub *VHub, g *mGraph, name string) (string, string) {
+	got, want := vObsCore(h, hub, name), mObsCore(g, name)
+	for _, id := range []string{"ns0:e1", "ns0:e2"} {
+		mv, ok := g.DS[name].Latest[id]
+		if !ok || mv.Deleted {
+			continue
+		}
+		e, err := hub.Store.GetEntity(id, []string{name}, true)
+		h.Assert(err == nil, "scoped lookup succeeds")
+		got += " lookup(" + id + ")=" + vRenderEntity(e)
+		want += " lookup(" + id + ")=" + mRender(mv)
+	}
+	return got, want
+}
+
+// VerifC05TxnOrder: a transaction over {a, b} runs concurrently with another
+// acknowledged write of the same entity (a batch to b, a batch to a, or a
+// transaction over {b}); scheduling is symbolic at every marked boundary,
+// including before each lock acquisition. Afterwards every read API of both
+// datasets — listing, feed, relationship queries AND entity lookups, scoped
+// and unscoped — answers as one of the two serial orders would.
+func VerifC05TxnOrder(h *verifh.H) {
+	hs := vNewHistory(h, "a", "b")
+	pre := mClone(hs.g)
+	ta := &mVersion{ID: "ns0:e1", Props: map[string]string{"ns0:v": "t"}, Refs: map[string][]string{}}
+	tb := &mVersion{ID: "ns0:e1", Props: map[string]string{"ns0:v": "t"}, Refs: map[string][]string{"ns0:p1": {"ns0:e3"}}}
+	wv := &mVersion{ID: "ns0:e1", Props: map[string]string{"ns0:v": "w"}, Refs: map[string][]string{"ns0:p1": {"ns0:e2"}}}
+	other := h.Choice("other", 3)
+	otherDS := []string{"b", "a", "b"}[other]
+	dsA, dsB := hs.dss["a"], hs.dss["b"]
+	h.SymbolicSched(h.Param("preemptions", 1))
+	var e1, e2 error
+	h.Go(func() {
+		e1 = hs.hub.Store.ExecuteTransaction(&Transaction{DatasetEntities: map[string][]*Entity{"a": {mkEntity(ta)}, "b": {mkEntity(tb)}}})
+	})
+	h.Go(func() {
+		switch other {
+		case 0:
+			e2 = dsB.StoreEntities([]*Entity{mkEntity(wv)})
+		case 1:
+			e2 = dsA.StoreEntities([]*Entity{mkEntity(wv)})
+		case 2:
+			e2 = hs.hub.Store.ExecuteTransaction(&Transaction{DatasetEntities: map[string][]*Entity{"b": {mkEntity(wv)}}})
+		}
+	})
+	h.Assert(h.Wait(), "both clients complete")
+	h.Assert(e1 == nil && e2 == nil, "both writes are acknowledged")
+	sTW := mClone(pre) // transaction first, then the other write
+	sTW.write("a", []*mVersion{ta})
+	sTW.write("b", []*mVersion{tb})
+	sTW.write(otherDS, []*mVersion{wv})
+	sWT := mClone(pre)
+	sWT.write(otherDS, []*mVersion{wv})
+	sWT.write("a", []*mVersion{ta})
+	sWT.write("b", []*mVersion{tb})
+	match := func(g *mGraph) bool {
+		ok := true
+		for _, name := range []string{"a", "b"} {
+			got, want := vObsWithLookup(h, hs.hub, g, name)
+			ok = ok && got == want
+		}
+		want, found, _ := g.mMergeRender("ns0:e1", nil)
+		e, err := hs.hub.Store.GetEntity("ns0:e1", nil, true)
+		ok = ok && err == nil && found && e != nil && vRenderEntity(e) == want
+		return ok
+	}
+	gotA, _ := vObsWithLookup(h, hs.hub, sTW, "a")
+	gotB, _ := vObsWithLookup(h, hs.hub, sTW, "b")
+	h.Assert(match(sTW) || match(sWT), "listing, feed, queries and lookups of both datasets answer as one serial order of the two acknowledged writes would :: a: "+gotA+" b: "+gotB)
+	h.Observe("other", other)
+}
